@@ -30,7 +30,9 @@ Dirs      == << "generic", "axis", "z1", "par", "z0", "perp", "z2" >>    \* zk: 
 
 GroupsD == << "SO2_d", "SE2_d", "SO3_d", "SE3_d", "SE_2_3_d", "SGal3_d", "R3_d" >>
 GroupsF == << "SO2_f", "SE2_f", "SO3_f", "SE3_f", "SE_2_3_f", "SGal3_f", "R3_f" >>
-GroupsQ == IF Tier = "thorough" THEN GroupsD \o GroupsF ELSE GroupsD \o << "SE2_f", "SE3_f", "SGal3_f" >>
+\* quick tier: single precision for every group on the cheap one-operand plans, for three groups on the two-operand / Jacobian plans
+GroupsQ == IF Tier = "thorough" \/ Prop \in {"C02", "C03", "C06", "C07", "C15", "C16", "C18"}
+           THEN GroupsD \o GroupsF ELSE GroupsD \o << "SE2_f", "SE3_f", "SGal3_f" >>
 
 Reps == IF Tier = "thorough" THEN 12 ELSE 2
 Range(s) == { s[i] : i \in 1..Len(s) }
@@ -64,6 +66,9 @@ PlanOf(p) ==
     [] p = "C02" -> TangentCells({"exp"}, ThetaAll, LinAll, 0) \cup Sweep({"exp"}, 0)
     [] p = "C03" -> ElementCells({"log", "logtwin"}, ThetaElem, LinAll, <<"generic">>, <<"1">>, 0)
                     \cup TangentCells({"explog"}, ThetaAll, LinAll, 0)
+                    \* valid but not exactly normalised coefficients (inside the library's acceptance threshold), either hemisphere
+                    \cup { Cell("log", key, ThetaElem[i], Cyc(<<"zero", "1", "1e3">>, i + h), <<"posdn", "negdn">>[h], Cyc(Dirs, i + h), "generic", "1", 0) :
+                             key \in Range(GroupsQ), i \in 1..Len(ThetaElem), h \in 1..2 }
                     \cup { Cell("logchain", key, "-", LinAll[j], "any", Dirs[d], "-", "-", 0) :
                              key \in Range(GroupsQ), j \in 1..Len(LinAll), d \in 1..2 }
     [] p = "C04" -> ElementCells({"rplus", "lplus", "rminus", "lminus", "between"}, ThetaElem, LinJ, ThetaIn, LinAll, 0)
